@@ -2,9 +2,9 @@
 
 World W1, fault-free configuration of the C02/C16 world; the only "event" is the restart
 (tag leaves and re-enters the field: the reader's volatile state is discarded, only the
-simulated tag storage survives).  Emulated Type 3 Tag: see checks/c01 phase 'emu' (W3).
+simulated tag storage survives).  Emulated Type 3 Tag: phase 'emu' (W3, two real stacks).
 """
-from dsim import core
+from dsim import core, kernel, simnet
 from dsim.core import Violation
 from dsim.w1 import gen
 
@@ -18,9 +18,11 @@ RULE = ("one run = (tag type, well-formed layout, previous content, new message)
         "precondition (old message readable) already fails are violations, not skipped")
 COMPONENTS = {
     "real": ["nfc.tag (activate, Tag.NDEF)", "nfc.tag.tt1/tt2/tt3/tt4 incl. memory readers and ISO-DEP",
-             "nfc.tag.tt1_broadcom", "nfc.clf.ContactlessFrontend (sense, exchange)"],
+             "nfc.tag.tt1_broadcom", "nfc.clf.ContactlessFrontend (sense, exchange)",
+             "phase emu: nfc.tag.tt3.Type3TagEmulation behind connect(card=...), nfc.clf.udp driver, connect(rdwr=...)"],
     "stub": ["SimDevice (Device interface)", "tag silicon models T1T/T2T/T3T/T4T with persistent memory",
-             "virtual clock", "independent layout/TLV/attribute/NLEN parsers as second oracle"],
+             "virtual clock", "independent layout/TLV/attribute/NLEN parsers as second oracle",
+             "phase emu: SimNet + thread kernel, application callbacks holding the emulated tag's storage"],
 }
 ASSUMPTIONS = [
     "tag silicon models follow DESIGN.md Appendix A",
@@ -38,6 +40,7 @@ def phases(tier):
         {"name": "t1", "runs": 2000 if q else 300000, "params": {"type": "t1", "big": not q}},
         {"name": "t3", "runs": 2000 if q else 300000, "params": {"type": "t3", "big": not q}},
         {"name": "t4", "runs": 2000 if q else 300000, "params": {"type": "t4", "big": not q}},
+        {"name": "emu", "runs": 250 if q else 20000, "params": {"type": "emu"}},
     ]
 
 
@@ -52,6 +55,8 @@ def layout_class(case):
 
 
 def run_one(sim, params):
+    if params["type"] == "emu":
+        return run_emu(sim, params)
     nfc = core.import_nfc()
     import nfc.tag
     typ = params["type"]
@@ -126,3 +131,206 @@ def run_one(sim, params):
         else:
             raise Violation("oversize-accepted", typ, "capacity+1 octets accepted; %r" % desc)
     sim.log("ok", typ, new_len)
+
+
+# --------------------------------------------------------------------------------------------------------------
+# emulated Type 3 Tag served by the library itself (W3: two real stacks on the simulated air)
+# --------------------------------------------------------------------------------------------------------------
+def attribute_block(ver, nbr, nbw, nmaxb, writef, rwflag, ln):
+    a = bytearray(16)
+    a[0], a[1], a[2] = ver, nbr, nbw
+    a[3:5] = nmaxb.to_bytes(2, "big")
+    a[9], a[10] = writef, rwflag
+    a[11:14] = ln.to_bytes(3, "big")
+    a[14:16] = sum(a[0:14]).to_bytes(2, "big")
+    return a
+
+
+def parse_area(area):
+    """independent reading of the emulated tag's storage -> ('ok', octets) | ('bad', why)"""
+    a = area[0:16]
+    if sum(a[0:14]) != int.from_bytes(a[14:16], "big"):
+        return "bad", "checksum"
+    if a[9] != 0:
+        return "bad", "write in progress flag set"
+    ln = int.from_bytes(a[11:14], "big")
+    nmaxb = int.from_bytes(a[3:5], "big")
+    if ln > nmaxb * 16 or 16 + ln > len(area):
+        return "bad", "length beyond area"
+    return "ok", bytes(area[16:16 + ln])
+
+
+def run_emu(sim, params):
+    nfc = core.import_nfc()
+    kernel.install(nfc)
+    import nfc.clf
+    import nfc.tag
+    k = kernel.Kernel(sim, max_steps=3000000, max_sim_s=900.0)
+    net = simnet.SimNet(k, ["R", "C"], latency=0.0005)
+    simnet.install(nfc, net)
+    net.start()
+    nmaxb = sim.wpick("emu.nmaxb", [(2, 1), (2, 2), (2, 3), (2, 10), (2, 16), (1, 17), (1, 40)])
+    nbr = sim.pick("emu.nbr", [1, 2, 4, 12, 15])
+    nbw = sim.pick("emu.nbw", [1, 2, 8, 13])
+    cap = nmaxb * 16
+    old_len, oc = gen.pick_len(sim, "emu.oldlen", cap)
+    old = sim.bytes("emu.old", old_len, tag=1)
+    area = bytearray(sim.bytes("emu.fill", 16 * (1 + nmaxb) + 32, tag=2))     # two more blocks behind the NDEF area
+    area[0:16] = attribute_block(0x10, nbr, nbw, nmaxb, 0, 1, old_len)
+    area[16:16 + old_len] = old
+    tail_before = bytes(area[16 * (1 + nmaxb):])
+    desc = {"type": "T3T emulation", "nbr": nbr, "nbw": nbw, "nmaxb": nmaxb, "old_len": old_len}
+    idm = bytes.fromhex("02FE") + sim.bytes("emu.idm", 6, tag=3)
+    # the udp driver's card side forgets a polling request when its listen window ends; window lengths that
+    # divide the reader's 1 s discovery timeout would hit that boundary every time
+    card_timeout = sim.pick("emu.card_timeout", [0.37, 0.61, 0.83, 1.3])
+    t0 = k.now()
+    state = {"stop": False, "card_cycles": 0, "writes_behind": []}
+    out = {}
+    nblocks_total = len(area) // 16
+
+    def card():
+        clf = nfc.ContactlessFrontend("udp:R:54321")
+        try:
+            def on_startup(target):
+                target.brty = "212F"
+                target.sensf_res = bytearray(b"\x01" + idm + bytes.fromhex("FFFFFFFFFFFFFFFF") + b"\x12\xFC")
+                return target
+
+            def rd(bn, rb, re):
+                if bn < nblocks_total:
+                    return area[bn * 16:(bn + 1) * 16]
+
+            def wr(bn, data, wb, we):
+                if bn < nblocks_total:
+                    if bn > nmaxb:
+                        state["writes_behind"].append(bn)
+                    area[bn * 16:(bn + 1) * 16] = data
+                    return True
+                return False
+
+            def on_connect(tag):
+                tag.add_service(0x0009, rd, wr)
+                tag.add_service(0x000B, rd, lambda *a: False)
+                return True
+            while not state["stop"] and k.now() - t0 < 120:
+                state["card_cycles"] += 1
+                clf.connect(card={"on-startup": on_startup, "on-connect": on_connect, "timeout": card_timeout},
+                            terminate=lambda: state["stop"] or k.now() - t0 > 120)
+        finally:
+            clf.close()
+
+    def reader():
+        clf = nfc.ContactlessFrontend("udp:C:54321")
+        try:
+            def session(fn):
+                res = {}
+
+                def on_connect(tag):
+                    try:
+                        res["r"] = fn(tag)
+                    except Violation as v:
+                        res["v"] = v
+                    except Exception as e:
+                        res["e"] = e
+                    return False
+                for attempt in range(6):
+                    got = clf.connect(rdwr={"targets": ["212F"], "on-connect": on_connect, "iterations": 1, "interval": 0.05},
+                                      terminate=lambda: k.now() - t0 > 100)
+                    if got is not None and got is not False:
+                        break
+                if "v" in res:
+                    raise res["v"]
+                if "e" in res:
+                    raise res["e"]
+                if "r" not in res:
+                    raise Violation("not-detected", "emu", "the emulated tag was not activated within 6 discovery cycles; %r" % desc)
+                return res["r"]
+
+            def first(tag):
+                try:
+                    ndef = tag.ndef
+                except Exception as e:
+                    raise Violation("read-raised", core.exc_site(e), "reading the previous message raised %r; %r" % (e, desc))
+                if ndef is None:
+                    raise Violation("not-detected", "emu", "emulated Type 3 Tag not recognised as NDEF tag (%s); %r" % (type(tag).__name__, desc))
+                if ndef.octets != old:
+                    raise Violation("read-old", "emu", "previous message read back wrong (%d bytes, expected %d); %r"
+                                    % (len(ndef.octets), old_len, desc))
+                rcap = ndef.capacity
+                if rcap > cap:
+                    raise Violation("capacity", "emu", "reported capacity %d exceeds what the tag holds (%d); %r" % (rcap, cap, desc))
+                new_len, nc = gen.pick_len(sim, "newlen", rcap)
+                new = sim.bytes("new", new_len, tag=3)
+                out["new"], out["nc"] = new, nc
+                sim.probe("len.zero" if new_len == 0 else "len.cap" if new_len == rcap else "len.other")
+                try:
+                    ndef.octets = new
+                except Exception as e:
+                    raise Violation("write-raised", core.exc_site(e), "assigning %d octets (capacity %d) raised %r (%s); %r"
+                                    % (new_len, rcap, e, core.exc_line(e), desc))
+                return True
+
+            def second(tag):
+                try:
+                    ndef = tag.ndef
+                except Exception as e:
+                    raise Violation("reread-raised", core.exc_site(e), "fresh activation raised %r; %r" % (e, desc))
+                new = out["new"]
+                if ndef is None:
+                    return None       # this activation got no answers (listen window of the udp card side ended): activate again
+                if ndef.octets != new:
+                    raise Violation("roundtrip", "emu", "fresh activation reads %d octets, wrote %d; %r" % (len(ndef.octets), len(new), desc))
+                sent_before = len([x for x in net.log if x[1] == "R"])
+                try:
+                    ndef.octets = bytes(ndef.capacity + 1)
+                except ValueError:
+                    if len([x for x in net.log if x[1] == "R"]) != sent_before:
+                        raise Violation("oversize-commands", "emu", "commands were sent before the ValueError; %r" % desc)
+                    sim.probe("oversize.rejected")
+                except Exception as e:
+                    raise Violation("oversize-raised", core.exc_site(e), "capacity+1 raised %r instead of ValueError" % e)
+                else:
+                    raise Violation("oversize-accepted", "emu", "capacity+1 octets accepted; %r" % desc)
+                return True
+            session(first)
+            for attempt in range(4):
+                kernel.TIME.sleep(0.3)      # the tag leaves the field: the card side sees the release
+                if session(second):
+                    break
+                sim.probe("emu.activation.repeated")
+            else:
+                raise Violation("reread-none", "emu", "4 fresh activations find no NDEF after writing %d octets; %r" % (len(out["new"]), desc))
+        finally:
+            state["stop"] = True
+            clf.close()
+
+    tr = k.spawn(reader, name="reader", node="R")
+    tc = k.spawn(card, name="card", node="C")
+    tr.no_stall = tc.no_stall = True
+    try:
+        try:
+            k.run(until_done=[tr, tc])
+        finally:
+            k.shutdown()
+    except kernel.Deadlock as e:
+        raise Violation("deadlock", "emu", "; ".join(e.blocked)[:500] + "; %r" % desc)
+    except core.BudgetExceeded as e:
+        raise Violation("no-progress", "emu", "%s; %r" % (e, desc))
+    if isinstance(tr.exc, Violation):
+        raise tr.exc
+    for t in (tr, tc):
+        if t.exc is not None:
+            raise Violation("raised", "%s %s" % (t.name, core.exc_site(t.exc)), "%s raised %r (%s); %r"
+                            % (t.name, t.exc, core.exc_line(t.exc), desc))
+    new = out["new"]
+    st, val = parse_area(area)
+    if st != "ok" or val != new:
+        raise Violation("image", "emu", "independent reading of the emulated tag storage gives %s/%s, wrote %d octets; %r"
+                        % (st, val if st != "ok" else len(val), len(new), desc))
+    if bytes(area[16 * (1 + nmaxb):]) != tail_before or state["writes_behind"]:
+        raise Violation("outside", "emu", "blocks behind the NDEF area were written: %r; %r" % (state["writes_behind"], desc))
+    sim.cls("emu", nmaxb, min(nbr, 4), min(nbw, 4), oc, out["nc"])
+    if sim.sample is None:
+        sim.sample = {"case": desc, "new_len": len(new), "card_cycles": state["card_cycles"]}
+    sim.log("ok", "emu", len(new))
